@@ -56,11 +56,11 @@ def run(ctx):
         jobs.mc("neg_noreset", cfg([(U, M, U, M)], dev=panel.CODE_DEV + ["NoQueueReset"], inv="NeverMore", traffic=1, **one), expect="NeverMore")
         # ---- behaviours
         jobs.gen("round1", cfg([(U, M)], gates=GATES, depth=8, traffic=2, **one))
-        jobs.gen("overlap", cfg([(U, M, U, M)], gates=GATES, depth=16, traffic=3, **one), simulate=n(120, 3000))
+        jobs.gen("overlap", cfg([(U, M, U, M)], gates=GATES, depth=16, traffic=3, **one), simulate=n(120, 2500))
         jobs.gen("reap", cfg([(S11, U, M), (S11, S12, U, M)], gates=GATES, depth=18, traffic=3, admin=ADMIN, maxadmin=1, **one),
-                 simulate=n(150, 4000))
+                 simulate=n(150, 3000))
         jobs.gen("two", cfg([(U, M, U, M), (S11, U, M, S21)], gates=GATES, depth=18, traffic=3, admin=ADMIN, maxadmin=1, **two),
-                 simulate=n(120, 3000))
+                 simulate=n(120, 2000))
         gens = jobs.gens()
         for k in gens:
             if not gens[k]:
